@@ -288,7 +288,7 @@ class PrimaiteGame:
                 new_node.config.start_up_duration = int(defaults_config["node_start_up_duration"])
             if "node_shut_down_duration" in defaults_config:
                 new_node.config.shut_down_duration = int(defaults_config["node_shut_down_duration"])
-            if "node_scan_duration" in defaults_config:
+            if "node_scan_duration" in defaults_config and "node_scan_duration" not in node_cfg:
                 new_node.config.node_scan_duration = int(defaults_config["node_scan_duration"])
             if "folder_scan_duration" in defaults_config:
                 new_node.file_system._default_folder_scan_duration = int(defaults_config["folder_scan_duration"])
